@@ -71,15 +71,19 @@ ints = st.integers(-2**62, 2**62) | st.integers(-3, 3)
 floats = st.floats(allow_nan=False, allow_infinity=True, width=64) | st.sampled_from([0.0, 1.5, -1.5, 2.0])
 strs = st.text(alphabet="abcXYZ 09_é", max_size=6) | st.sampled_from(["a", "b", "ab"])
 uints = st.integers(0, 2**32 - 1) | st.integers(0, 3)
-COLT = {"i": ints, "f": floats, "s": strs, "u": uints, "b": st.booleans()}
+# a list column may hold numbers of different Python types: sorting permutes them, it does not convert them
+mixed = st.sampled_from([1, 2.5, 2 ** 53 + 1, 7, 0.5, 2 ** 63 + 1, -3, 2 ** 53, 4.0])
+COLT = {"i": ints, "f": floats, "s": strs, "u": uints, "b": st.booleans(), "m": mixed}
 
 
 @st.composite
 def rows_case(draw):
     ncol = draw(st.integers(1, 4))
     names = ["c%d" % i for i in range(ncol)]
-    types = [draw(st.sampled_from("iffssub")) for _ in names]
+    types = [draw(st.sampled_from("iffssubm")) for _ in names]
     array = draw(st.booleans())
+    if array:
+        types = ["f" if t == "m" else t for t in types]
     lazy = (not array) and draw(st.integers(0, 5)) == 0   # columns created by the first dict row
     row = st.tuples(*[COLT[t] for t in types]).map(list)
     op = st.one_of(
